@@ -31,6 +31,21 @@ Definition c13_publish_last : bool :=
   forallb (fun p => negb (match snd p with [] => true | _ => false end) && forallb (fun x => N.eqb (snd x) 0) (snd p)) publish_sites
   && Nat.eqb (List.length publish_sites) 2.
 
+(* the functions of the handshake itself (they run under handshakeMutex and the read-half lock, from
+   handshakeFn): only these may store to the completion flag; a store from anywhere else could take
+   the flag back after other goroutines have seen the handshake complete *)
+Definition handshake_functions : list string :=
+  ["tlcp.clientHandshakeState.handshake"; "tlcp.serverHandshakeState.handshake";
+   "dtlcp.Conn.clientHandshake"; "dtlcp.Conn.serverHandshake"; "dtlcp.clientHandshakeState.handshake";
+   "dtlcp.serverHandshakeState.doFullHandshake"; "dtlcp.serverHandshakeState.handshake"].
+
+Definition c13_flag_writers_ok : bool :=
+  forallb (fun p => forallb (fun w => existsb (String.eqb w) handshake_functions) (snd p)) flag_writers
+  && Nat.eqb (List.length flag_writers) 2.
+
+Lemma c13_flag_writers_check : c13_flag_writers_ok = true.
+Proof. vm_cast_no_check (eq_refl true). Qed.
+
 Lemma c13_publish_last_check : c13_publish_last = true.
 Proof. vm_cast_no_check (eq_refl true). Qed.
 
